@@ -9,6 +9,7 @@ NOT_DECIDED = "per-tick liveness over generated programs (runtime)"
 
 
 def check(ctx):
+    _framing.per_tick_over_actives(ctx)
     _framing.aux_lifetime(ctx)
     # an auxiliary is exited through Framer.exitAll/deactivate and re-entered through activate: the outline state rules (C05)
     # decide that a later activation starts from an intact outline
